@@ -295,6 +295,7 @@ fn replay_of(prop: &str, seed: u64, sc: &Scenario, out: &Outcome) -> ReplayFile 
         class: f.class.clone(),
         message: f.msg.clone(),
         known: f.known.clone(),
+        kill_at: None,
     }
 }
 
@@ -318,6 +319,69 @@ fn start_watchdog() {
             }
         }
     });
+}
+
+/// C08 on the shipped backends: a child process runs the history on RocksDB
+/// / Fjall in a scratch directory and kills itself (SIGKILL) at the n-th
+/// write-behind event; this process then opens the directory and checks what
+/// it finds.  Returns (outcome of the recovery check, child was killed).
+fn real_crash_run(sc: &Scenario, kill_at: u64) -> (Outcome, bool) {
+    let dir = tempfile::Builder::new().prefix("verif_c08r_").tempdir().expect("tempdir");
+    let dbdir = dir.path().join("db");
+    std::fs::create_dir_all(&dbdir).unwrap();
+    let scfile = dir.path().join("scenario.json");
+    std::fs::write(&scfile, serde_json::to_vec(sc).unwrap()).unwrap();
+    let exe = std::env::current_exe().unwrap();
+    let mut child = std::process::Command::new(exe)
+        .arg("child")
+        .arg(&scfile)
+        .arg(&dbdir)
+        .arg(kill_at.to_string())
+        .stdout(std::process::Stdio::null())
+        .stderr(std::process::Stdio::null())
+        .spawn()
+        .expect("spawn child");
+    let start = Instant::now();
+    let status = loop {
+        match child.try_wait() {
+            Ok(Some(st)) => break Some(st),
+            Ok(None) => {
+                if start.elapsed().as_secs() > 60 {
+                    let _ = child.kill();
+                    let _ = child.wait();
+                    break None;
+                }
+                std::thread::sleep(std::time::Duration::from_millis(2));
+            }
+            Err(_) => break None,
+        }
+    };
+    use std::os::unix::process::ExitStatusExt;
+    let killed = status.is_some_and(|s| s.signal() == Some(9));
+    let hist = run::static_input_history(sc);
+    let clean = status.is_some_and(|s| s.code() == Some(0));
+    let out = run::run_real(sc, &dbdir, Some((hist, clean)));
+    (out, killed)
+}
+
+fn real_variant(sc: &Scenario, r: &mut Rng) -> Scenario {
+    let mut sc = sc.clone();
+    sc.cfg.storage = Storage::Real {
+        backend: if r.chance(1, 2) { "rocksdb".into() } else { "fjall".into() },
+        cache_cap: *r.pick(&[1, 4, 64]),
+    };
+    sc.cfg.crash_check = false;
+    sc.ops.retain(|o| !matches!(o, scenario::Op::Restart | scenario::Op::Drain));
+    sc
+}
+
+fn child(args: &[String]) -> i32 {
+    let sc: Scenario = serde_json::from_slice(&std::fs::read(&args[0]).expect("scenario")).expect("parse");
+    let dir = std::path::PathBuf::from(&args[1]);
+    let kill_at: u64 = args[2].parse().unwrap_or(0);
+    queries::KILL_AT.store(kill_at, std::sync::atomic::Ordering::SeqCst);
+    let out = run::run_real(&sc, &dir, None);
+    if out.failure.is_some() { 1 } else { 0 }
 }
 
 fn batch(args: &[String]) {
@@ -370,7 +434,7 @@ fn batch(args: &[String]) {
     let mut i = worker;
     while runs < max_runs && start.elapsed().as_secs_f64() < budget {
         let run_seed = mix(base, i);
-        let sc0 = make_scenario(&prop, run_seed, thorough);
+        let sc0 = make_scenario(if prop == "C08r" { "C08" } else { &prop }, run_seed, thorough);
         // C05: calibrate (count the suspension points of the target), then
         // enumerate every n within this scenario
         let mut variants: Vec<Scenario> = vec![sc0.clone()];
@@ -395,6 +459,39 @@ fn batch(args: &[String]) {
                 }
             }
         }
+        if prop == "C08r" {
+            let mut fr = Rng::new(run_seed).split(label("fault"));
+            let sc = real_variant(&make_scenario("C08", run_seed, thorough), &mut fr);
+            let kill_at = fr.range(1, 120);
+            let (out, killed) = real_crash_run(&sc, kill_at);
+            runs += 1;
+            *fault_counts.entry(if killed { "kill_9_during_pipeline".to_string() } else { "history_completed_before_kill_point".to_string() }).or_insert(0) += 1;
+            if let Storage::Real { backend, .. } = &sc.cfg.storage {
+                *totals.entry(format!("runs_{backend}")).or_insert(0) += 1;
+            }
+            if killed {
+                nontrivial_shapes.insert(shape_hash(&sc) ^ kill_at);
+            }
+            for (k, v) in &out.stats.probes {
+                if k.starts_with("recovered_") {
+                    *totals.entry(format!("{k}_{}", if killed { "after_kill" } else { "after_clean_exit" })).or_insert(0) += v;
+                }
+            }
+            if samples.is_empty() && killed {
+                samples.push(serde_json::json!({"run_seed": run_seed, "kill_at": kill_at, "scenario": sc}));
+            }
+            if let Some(f) = &out.failure {
+                failures += 1;
+                let mut rf = replay_of(&prop, run_seed, &sc, &out);
+                rf.property = "C08".into();
+                rf.kill_at = Some(kill_at);
+                let _ = f;
+                let mut o = stdout.lock();
+                writeln!(o, "{}", serde_json::json!({"type": "failure", "i": i, "replay": rf})).unwrap();
+            }
+            i += workers;
+            continue;
+        }
         for sc in variants {
         {
             let rf = ReplayFile {
@@ -406,6 +503,7 @@ fn batch(args: &[String]) {
                 class: "stuck".into(),
                 message: "the simulation thread made no progress (blocked or spinning inside the code under test); wall-clock backstop".into(),
                 known: None,
+                kill_at: None,
             };
             *CURRENT_RUN.lock().unwrap() =
                 Some((Instant::now(), serde_json::json!({"type": "failure", "i": i, "replay": rf}).to_string()));
@@ -426,7 +524,7 @@ fn batch(args: &[String]) {
             if sc.cfg.strict {
                 strict_exposed += 1;
                 if args.iter().any(|a| a == "--emit-exposed") && strict_exposed <= 2 {
-                    println!("{}", serde_json::json!({"type": "exposed", "exposed": out.exposed, "scenario": sc, "replay": ReplayFile{property: prop.clone(), harness: "engine_sim".into(), seed: run_seed, scenario: sc.clone(), decisions: Some(out.decisions.clone()), class: "none".into(), message: String::new(), known: None}}));
+                    println!("{}", serde_json::json!({"type": "exposed", "exposed": out.exposed, "scenario": sc, "replay": ReplayFile{property: prop.clone(), harness: "engine_sim".into(), seed: run_seed, scenario: sc.clone(), decisions: Some(out.decisions.clone()), class: "none".into(), message: String::new(), known: None, kill_at: None}}));
                 }
             }
         }
@@ -497,7 +595,21 @@ fn replay(args: &[String]) -> i32 {
             std::process::exit(if reproduced { 0 } else { 3 });
         });
     }
-    let out = run_scenario(&rf.scenario, rf.decisions.as_deref());
+    let out = if matches!(rf.scenario.cfg.storage, Storage::Real { .. }) {
+        // the backends' own threads are not scheduled: several attempts
+        let mut last = None;
+        for _ in 0..5 {
+            let (o, _) = real_crash_run(&rf.scenario, rf.kill_at.unwrap_or(1));
+            let hit = o.failure.as_ref().is_some_and(|f| f.class == rf.class);
+            last = Some(o);
+            if hit {
+                break;
+            }
+        }
+        last.unwrap()
+    } else {
+        run_scenario(&rf.scenario, rf.decisions.as_deref())
+    };
     let (class, msg, known) = match &out.failure {
         Some(f) => (f.class.clone(), f.msg.clone(), f.known.clone()),
         None => ("none".into(), String::new(), None),
@@ -520,6 +632,7 @@ fn main() {
             0
         }
         Some("replay") => replay(&args[1..]),
+        Some("child") => child(&args[1..]),
         Some("shrink") => shrink::shrink_cmd(&args[1..]),
         Some("gen") => {
             let prop = arg(&args, "--prop").unwrap();
